@@ -123,13 +123,20 @@ def replay_entry(mm, gname, nmul, i, j, then_f=None):
             dict(kind='assembly', geometry=gname, nmul=nmul, i=i, j=j))
 
 
-def replay_sentence(mm, key, what_prefix):
+def replay_sentence(mm, key, what_prefix, extra=()):
     """A candidate from the kernel / quadrature clauses is a violation only if the property's own
     sentence fails: some entry between separated pulses deviates from the adaptively integrated
     published formulation by more than 1e-4 of its terms (thin and thick wires, free space and ground)."""
-    for gname in ('G2', 'G9', 'G8'):
-        for scale_r in (1.0, 4.0):
-            m = catalogue.build(mm, gname, nmul=2, rmul=scale_r)
+    # G19 with a quarter of its radii: a thin (r <= 1e-4 wavelength) and a thick wire in ONE model
+    todo = [(g, sr, None) for g in ('G2', 'G9', 'G8') for sr in (1.0, 4.0)] + [('G19', 0.25, None), ('G20', 0.25, None)]
+    todo += [('given', 1.0, e) for e in extra]
+    for gname, scale_r, given in todo:
+        if True:
+            if given is not None:
+                m = given()
+                gname = 'the model of the candidate'
+            else:
+                m = catalogue.build(mm, gname, nmul=2, rmul=scale_r)
             m.compute_impedance_matrix()
             psi = mininec3.quad_psi(m)
             n = len(m.pulses)
@@ -208,7 +215,7 @@ def gauss_exact(ck, sh, mm):
     ck.bounds['quadrature'] = 'orders 2, 4, 8 of legendre_cache, upper bounds 1 and 1/2, polynomial coefficients in [-1, 1]'
 
 
-def kernel(ck, sh, mm, thick, image):
+def kernel(ck, sh, mm, thick, image, mixed=False):
     """(C) reduced kernel of integral_i2_i3 for one (radius class, image) combination."""
     M = sh.mininec
     core.CIRCLE_MODE = 'uf'
@@ -226,16 +233,25 @@ def kernel(ck, sh, mm, thick, image):
             c.assume(z3.And(r.n > core.RV(srm), r.n <= 1))
         else:
             c.assume(z3.And(r.n > 0, r.n <= core.RV(srm)))
-        a = np.empty((1, 3), dtype=object)
-        a[0, :] = v2
-        b = np.empty((1, 3), dtype=object)
-        b[0, :] = vv
-        tt = np.empty((1, 1), dtype=object)
-        tt[0, 0] = t
-        ra = np.empty(1, dtype=object)
-        ra[0] = r
+        # the element under test sits in a batch (as in the matrix fill, where one call covers all pulse pairs) whose other
+        # element is a wire of the OTHER radius class: what one element gets must not depend on its neighbours in the batch
+        ro = SR.var('r_other')
+        if thick:
+            c.assume(z3.And(ro.n > 0, ro.n <= core.RV(srm)))
+        else:
+            c.assume(z3.And(ro.n > core.RV(srm), ro.n <= 1))
+        nb = 2 if mixed else 1
+        a = np.empty((nb, 3), dtype=object)
+        b = np.empty((nb, 3), dtype=object)
+        tt = np.empty((nb, 1), dtype=object)
+        ra = np.empty(nb, dtype=object)
+        for k in range(nb):
+            a[k, :] = v2
+            b[k, :] = vv
+            tt[k, 0] = t
+            ra[k] = r if k == 0 else ro
         with symx.object_arrays():
-            res = m.integral_i2_i3(tt, a, b, -1 if image else 1, ra, np.array([False]))
+            res = m.integral_i2_i3(tt, a, b, -1 if image else 1, ra, np.array([False] * nb))
         res = res.reshape(-1)
         # oracle
         p, q = (vv, v2) if image else (v2, vv)
@@ -245,7 +261,7 @@ def kernel(ck, sh, mm, thick, image):
             rho2 = rho2 + x * x
         R = (rho2 + r * r).sqrt() if thick else rho2.sqrt()
         ref = (SC(0.0, -1.0) * (R * float(m.w))).exp() / R
-        return dict(inputs=dict(t=t, a=v2, b=vv, r=r), res=res[0], ref=ref, w=float(m.w))
+        return dict(inputs=dict(t=t, a=v2, b=vv, r=r, r_other=ro), res=res[0], ref=ref, w=float(m.w))
 
     def goals(o):
         return [('kernel = exp(-jwR)/R', core.eq_term(o['res'], o['ref']))]
@@ -254,7 +270,14 @@ def kernel(ck, sh, mm, thick, image):
         m = catalogue.build(mm, 'G7' if image else 'G1')
         a, b = np.array([float(x) for x in conc['a']]), np.array([float(x) for x in conc['b']])
         t, r = float(conc['t']), float(conc['r'])
-        res = m.integral_i2_i3(np.array([[t]]), a[None, :], b[None, :], -1 if image else 1, np.array([r]), np.array([False])).reshape(-1)[0]
+        if mixed:
+            ro = float(conc['r_other'])
+            if not ((ro > m.srm) != (r > m.srm) and ro > 0):
+                ro = m.srm * (0.5 if r > m.srm else 20.0)
+            res = m.integral_i2_i3(np.array([[t], [t]]), np.array([a, a]), np.array([b, b]), -1 if image else 1, np.array([r, ro]),
+                                   np.array([False, False])).reshape(-1)[0]
+        else:
+            res = m.integral_i2_i3(np.array([[t]]), a[None, :], b[None, :], -1 if image else 1, np.array([r]), np.array([False])).reshape(-1)[0]
         p, q = (b, a) if image else (a, b)
         x = p + (q - p) * t
         R = math.sqrt(x @ x + (r * r if r > m.srm else 0.0))
@@ -263,10 +286,69 @@ def kernel(ck, sh, mm, thick, image):
         ref = np.exp(-1j * m.w * R) / R
         if abs(res - ref) <= 1e-9 * abs(ref):
             return None
-        return replay_sentence(mm, 'C02:kernel:%s:%s' % ('thick' if thick else 'thin', 'image' if image else 'direct'),
-                               'integral_i2_i3(t=%r, %r, %r, r=%r) = %r, published reduced kernel %r' % (t, a, b, r, res, ref))
-    prove_paths(ck, 'kernel-%s-%s' % ('thick' if thick else 'thin', 'image' if image else 'direct'), fn, goals, replay,
+        return replay_sentence(mm, 'C02:kernel:%s:%s%s' % ('thick' if thick else 'thin', 'image' if image else 'direct', ':mixed-batch' if mixed else ''),
+                               'integral_i2_i3(t=%r, %r, %r, r=%r%s) = %r, published reduced kernel %r'
+                               % (t, a, b, r, ', evaluated together with a wire of the other radius class' if mixed else '', res, ref))
+    prove_paths(ck, 'kernel-%s-%s%s' % ('thick' if thick else 'thin', 'image' if image else 'direct', '-mixed' if mixed else ''), fn, goals, replay,
                 max_paths=16, sqrt_mode='uf')
+
+
+def nvg_flag(ck, sh, mm):
+    """The matrix fill takes a shortcut (entries copied from an earlier pair of the same wire) that the code itself switches off for
+    pulses on a grounded wire that is not exactly vertical (Pulse.is_non_vertical_grounded): for those the image term differs from
+    pair to pair.  The real property runs on a pulse whose segment direction is an arbitrary vector: whenever the pulse is grounded
+    and the direction has ANY horizontal component the switch is on.  (One-sided: switching the shortcut off more often is harmless.)
+    A candidate direction is replayed as a grounded wire of that direction against the adaptively integrated formulation."""
+    P = sh.pulse
+
+    class Geo:
+        n = 0
+        tag = 1
+
+    class Seg:
+        geobj = Geo()
+
+    for gnd in (0, 1):
+        def fn(gnd=gnd):
+            c = symx.ctx()
+            d = [SR.var('d%d' % i) for i in range(3)]
+            c.assume(core.eq_term(d[0] * d[0] + d[1] * d[1] + d[2] * d[2], SR.lift(1.0)))
+            c.assume(z3.Or(d[0].n != 0, d[1].n != 0))
+            seg = Seg()
+            seg.dirvec = np.empty(3, dtype=object)
+            seg.dirvec[:] = d
+            cont = P.Pulse_Container()
+            z = np.zeros(3)
+            p = P.Pulse(cont, z, z, z, seg, seg, gnd=gnd)
+            with symx.object_arrays():
+                flag = p.is_non_vertical_grounded
+                if isinstance(flag, np.ndarray):
+                    flag = flag.all()
+                flag = bool(flag)
+            return dict(inputs=dict(d=d), flag=flag)
+
+        def goals(o):
+            return [('grounded pulse, direction with a horizontal component: shortcut switched off', z3.BoolVal(bool(o['flag'])))]
+
+        def replay(conc, gn, out, gnd=gnd):
+            d = np.array([float(x) for x in conc['d']])
+            nrm = np.linalg.norm(d)
+            if nrm == 0 or (d[0] == 0 and d[1] == 0):
+                return None
+            d = d / nrm
+            if abs(d[2]) < 0.05:
+                d = d + np.array([0, 0, 0.3])           # a wire lying on the ground plane is not a legal model; keep the horizontal direction
+                d = d / np.linalg.norm(d)
+            d = d * (1 if d[2] > 0 else -1)
+
+            def given():
+                top = tuple(2.4 * d)
+                ends = ((0.0, 0.0, 0.0), top) if gnd == 0 else (top, (0.0, 0.0, 0.0))
+                return mm.Mininec(catalogue.F0, [mm.Wire(8, *ends[0], *ends[1], 0.002)], media=[mm.Medium(0, 0)])
+            return replay_sentence(mm, 'C02:shortcut-flag:grounded-end%d' % (gnd + 1),
+                                   'a pulse grounded at end %d on a wire of direction %r is treated as vertical by the fill shortcut' % (gnd + 1, list(d)),
+                                   extra=(given,))
+        prove_paths(ck, 'shortcut-flag-gnd%d' % gnd, fn, goals, replay, max_paths=16)
 
 
 def main(args):
@@ -281,6 +363,8 @@ def main(args):
     parts += [('assembly', ('G24', 1)), ('assembly', ('G24', 1, 0.125))]
     parts += [('gauss_exact', ())]
     parts += [('kernel', (th, im)) for th in (True, False) for im in (False, True)]
+    parts += [('kernel', (th, im, True)) for th in (True, False) for im in (False, True)]
+    parts += [('nvg_flag', ())]
     run_parallel(ck, 'checks.c02', parts)
     ck.assumptions += [
         'geometry: catalogue members with 2x (quick) / 3x (thorough) the catalogue segment counts, concrete coordinates',
